@@ -38,6 +38,7 @@ type Gen struct {
 	nextMkt  int64
 	nextBet  int64
 	usedBets []int64
+	okTix    []Op // accepted ticket-bearing ops whose very ticket (same string: same payload, exp and key) is presented again later
 	stats    map[string]int
 }
 
@@ -114,7 +115,36 @@ func NewGen(c *Chain, profile string, r *rand.Rand) *Gen {
 }
 
 func (g *Gen) leaderTicket() Ticket {
+	if g.chance(0.2) { // long-lived: still unexpired after a key rotation or many blocks (replayed by replayTicket)
+		return Ticket{Signer: int64(g.c.LeaderKey()), Exp: g.c.Time + int64(3000+g.r.Intn(20000))}
+	}
 	return Ticket{Signer: int64(g.c.LeaderKey()), Exp: g.c.Time + int64(1+g.r.Intn(1000))}
+}
+
+// replayTicket presents the ticket of an earlier accepted message once more, byte for byte (tickets are deterministic in
+// payload, exp and signing key): the same update again, the same vote ticket under another voter index, the same deposit
+// ticket for another market and amount.  Whether it is accepted must depend on the keys registered NOW (C06).
+func (g *Gen) replayTicket() Op {
+	o := pick(g.r, g.okTix)
+	g.stats["ticket_replayed_"+o.Kind]++
+	switch o.Kind {
+	case "VOTE":
+		n := int64(len(g.vault()))
+		if n > 1 {
+			o.VoterIdx = (o.VoterIdx + 1 + g.r.Int63n(n-1)) % n
+		}
+		if ps := g.c.App.OVMKeeper; g.chance(0.5) {
+			_ = ps
+			o.Signer = g.user()
+		}
+	case "DEP":
+		d := g.genDeposit()
+		if d.Kind == "DEP" {
+			d.Tk, d.Ky, d.Depositor, d.Signer = o.Tk, o.Ky, o.Depositor, o.Signer
+			return d
+		}
+	}
+	return o
 }
 
 // badTicket returns a ticket the chain must reject.
@@ -759,6 +789,25 @@ func (g *Gen) genSubHouseDeposit() Op {
 	o.Kind = "SDEP"
 	o.Signer = g.subOwner()
 	o.Ky = g.kycFor(o.Signer)
+	// size the deposit to what the subaccount can spend, so that subaccount-owned participations exist (and are later
+	// withdrawn from several times)
+	if o.Signer >= 0 && o.Signer < int64(len(g.c.Acc)) && g.chance(0.8) {
+		ctx := g.c.Ctx()
+		if sa, ok := g.c.App.SubaccountKeeper.GetSubaccountByOwner(ctx, g.c.Acc[o.Signer].Addr); ok {
+			if sum, ok2 := g.c.App.SubaccountKeeper.GetAccountSummary(ctx, sa); ok2 {
+				av := sum.Available()
+				min := g.c.Cfg.House.MinDeposit
+				if av.IsInt64() && av.GT(min) {
+					span := av.Int64() - min.Int64()
+					o.Amount = bi(min.Int64() + g.r.Int63n(span+1))
+					if g.chance(0.5) && span > 40 {
+						o.Amount = bi(min.Int64() + g.r.Int63n(span/4+1))
+					}
+					g.stats["sdep_sized"]++
+				}
+			}
+		}
+	}
 	if g.chance(0.9) {
 		o.Depositor = -1
 	}
@@ -770,14 +819,32 @@ func (g *Gen) genSubHouseWithdraw() Op {
 	if o.Kind != "WDR" {
 		return o
 	}
-	// prefer participations owned by a subaccount
+	// prefer participations owned by a subaccount; amount and mode are then drawn for THAT participation, mostly small
+	// partial amounts so that the same participation is withdrawn from again and again (withdrawal count, C09)
 	ctx := g.c.Ctx()
 	parts, _ := g.c.App.OrderbookKeeper.GetAllOrderBookParticipations(ctx)
 	for _, p := range parts {
-		if id := g.c.AccID(p.ParticipantAddress); id > 1000 && g.chance(0.7) {
+		if id := g.c.AccID(p.ParticipantAddress); id > 1000 && !p.IsSettled && g.chance(0.7) {
 			o.Mkt, o.Pidx = uidNum(p.OrderBookUID), int64(p.Index)
 			if ow, ok := g.c.App.SubaccountKeeper.GetSubaccountOwner(ctx, sdkAcc(p.ParticipantAddress)); ok {
 				o.Signer = g.c.AccID(ow.String())
+			}
+			mx := p.CurrentRoundLiquidity.Int64()
+			if !p.CurrentRoundMaxLoss.IsNegative() {
+				mx -= p.CurrentRoundMaxLoss.Int64()
+			}
+			switch {
+			case mx > 1 && g.chance(0.75):
+				lim := mx
+				if lim > 6 {
+					lim = 6
+				}
+				o.Mode, o.Amount = 2, bi(1+g.r.Int63n(lim))
+				g.stats["swdr_small_partial"]++
+			case mx > 0 && g.chance(0.5):
+				o.Mode, o.Amount = 2, bi(mx)
+			default:
+				o.Mode, o.Amount = 1, bi(0)
 			}
 			break
 		}
@@ -876,13 +943,16 @@ func (g *Gen) NextTx() Op {
 		f func() Op
 		w int
 	}
+	if len(g.okTix) > 0 && g.chance(0.07) {
+		return g.replayTicket()
+	}
 	am := len(g.activeMarkets())
 	ws := []w{{g.genMarketAdd, 4}, {g.genMarketUpdate, 2}, {g.genMarketResolve, 3}, {g.genDeposit, 14}, {g.genWithdraw, 6},
 		{g.genWager, 30}, {g.genGrant, 4}, {g.genSend, 1}}
 	switch g.profile {
 	case "sub":
 		ws = append(ws, w{g.genSubCreate, 6}, w{g.genSubTopUp, 5}, w{g.genSubWithdraw, 10}, w{g.genSubWager, 14},
-			w{g.genSubHouseDeposit, 8}, w{g.genSubHouseWithdraw, 4})
+			w{g.genSubHouseDeposit, 10}, w{g.genSubHouseWithdraw, 9})
 		ws[5].w = 12
 	case "params":
 		ws = append(ws, w{g.genSubCreate, 3}, w{g.genSubHouseDeposit, 4}, w{g.genSubWager, 4})
@@ -933,6 +1003,15 @@ func (g *Gen) Observe(o Op, res string) {
 		}
 	case "WAG", "SWAG":
 		g.usedBets = append(g.usedBets, o.BetUID)
+	}
+	switch o.Kind {
+	case "MUPD", "VOTE", "DEP":
+		if o.Tk.Signer >= 0 {
+			g.okTix = append(g.okTix, o)
+			if len(g.okTix) > 40 {
+				g.okTix = g.okTix[1:]
+			}
+		}
 	}
 }
 
